@@ -997,7 +997,7 @@ def nt_hist(labels):
 
 
 SUBCHECKS = [
-    Sub('histories', history_case(), body_history, nt_hist, quick=60, thorough=1200, shards_quick=16, budget_quick=200,
+    Sub('histories', history_case(), body_history, nt_hist, quick=60, thorough=5000, shards_quick=16, budget_quick=200,
         classes=['nontrivial_history', 'inplace_on_derived'] + ['op:' + k for k in sorted(set(WEIGHTED))]),
     Sub('cross_product', None, body_cross, lambda l: 'followup_applied' in l, quick=0, thorough=0, shards_quick=16, shards_thorough=16,
         cases=CROSS_CASES, classes=['followup_applied']),
